@@ -325,6 +325,48 @@ def build_view_item(it):
     return sf.Series(f[lab].values.copy(), index=f.index, name=lab)
 
 
+def gen_bus_items(rng):
+    '''Buses over the same labels whose Frames differ in exactly one respect (stored dtype with equal values, name, class, one cell, a NaN
+    against a None) or in none: a Bus is equal to another exactly when, label by label, its Frames are - under the same options'''
+    import copy as _copy
+    for _ in range(30):
+        fam = [it for it in gen_items(rng) if it['kind'] == 'frame' and it['cls'] != 'FrameGO' and it['cols'] and it['index']]
+        if fam:
+            break
+    else:
+        return None
+    base = fam[0]
+    vs = [_copy.deepcopy(base)]
+    v = _copy.deepcopy(base)          # the same values stored in another dtype
+    for c in v['cols']:
+        if c['dt'][0] == 'i':
+            c['dt'] = ['f', 64]
+            c['vals'] = [['f', x[1], 1] if x[0] == 'i' else x for x in c['vals']]
+            break
+        if c['dt'][0] == 'U':
+            c['dt'] = ['U', c['dt'][1] + 3]
+            break
+    vs.append(v)
+    v = _copy.deepcopy(base)
+    v['name'] = ['s', 'other'] if base['name'] != ['s', 'other'] else ['none']
+    vs.append(v)
+    v = _copy.deepcopy(base)
+    v['cls'] = 'FrameHE' if base['cls'] != 'FrameHE' else 'Frame'
+    vs.append(v)
+    vs += [_copy.deepcopy(x) for x in fam[1:3]]
+    labels = [['s', 'f1'], ['s', 'f2']]
+    out = []
+    for var in vs:
+        frames = [_copy.deepcopy(base), var] if rng.random() < 0.7 else [var, _copy.deepcopy(base)]
+        out.append({'kind': 'bus', 'cls': 'Bus', 'name': rng.choice([['none'], ['none'], ['s', 'bn']]), 'index': labels, 'frames': frames})
+    return out
+
+
+def build_bus_item(rng, it):
+    frames = [build(fr, layouts_for_item(rng, fr)) for fr in it['frames']]
+    return sf.Bus(sf.Series.from_items(zip([P.dec(x) for x in it['index']], frames), dtype=object, name=P.dec(it['name'])))
+
+
 def layouts_for_item(rng, it):
     if it['kind'] != 'frame':
         return None
@@ -364,6 +406,12 @@ def main(ctx):
             for it in items:
                 it.pop('fam'), it.pop('via')
             ctx.count('V_view_family')
+        elif i % 13 in (7, 2, 10):
+            items = gen_bus_items(ctx.rng)
+            if items is None:
+                continue
+            objs = [build_bus_item(ctx.rng, it) for it in items]
+            ctx.count('V_bus_family')
         elif i % 4 == 3:
             items = gen_index_items(ctx.rng)
             objs = [build_index_item(it) for it in items]
@@ -376,6 +424,8 @@ def main(ctx):
             items = gen_items(ctx.rng)
             objs = [build(it, layouts_for_item(ctx.rng, it)) for it in items]
         opts = {'name': ctx.rng.random() < 0.3, 'dtype': ctx.rng.random() < 0.3, 'class': ctx.rng.random() < 0.3, 'skipna': ctx.rng.random() < 0.7}
+        if items[0]['kind'] == 'bus' and ctx.rng.random() < 0.5:
+            opts['dtype'] = True          # (the option that only the Frames inside can answer)
         kw = dict(compare_name=opts['name'], compare_dtype=opts['dtype'], compare_class=opts['class'], skipna=opts['skipna'])
         try:
             m = [[bool(a.equals(b, **kw)) for b in objs] for a in objs]
@@ -384,8 +434,7 @@ def main(ctx):
             continue
         events.append({'id': len(events), 'kind': 'matrix', 'items': items, 'm': m, 'opts': opts})
         ctx.count('V_matrix')
-        he = [(it, o) for it, o in zip(items, objs) if it['cls'].endswith('HE')]
-        if i % 3 == 0 and items[0]['kind'] != 'index':
+        if i % 3 == 0 and items[0]['kind'] not in ('index', 'bus'):
             # HE variants of every item
             hitems = [dict(it, cls='SeriesHE' if it['kind'] == 'series' else 'FrameHE') for it in items]
             # equal labels held in differently stored index arrays are the same labels: == and hash must not see the storage
